@@ -13,11 +13,12 @@ import (
 )
 
 type Clause struct {
-	Only []string // property ids this clause is checked under ("ensures @C13 @C01 <e>"); empty = every property of the block
-	E    Expr
-	Src  string
-	File string
-	Line int
+	Defines bool     // 'defines <e>': postcondition that defines uninterpreted spec functions by this function's own result: assumed, not proved
+	Only    []string // property ids this clause is checked under ("ensures @C13 @C01 <e>"); empty = every property of the block
+	E       Expr
+	Src     string
+	File    string
+	Line    int
 	// optional ghost witness bindings:  ensures P with g = e
 }
 
@@ -130,7 +131,7 @@ var reLemma = regexp.MustCompile(`^lemma\s+([A-Za-z_][A-Za-z0-9_]*)\s*\((.*)\)\s
 var rePred = regexp.MustCompile(`^(?:pred|fun)\s+([A-Za-z_][A-Za-z0-9_]*)\s*\((.*?)\)\s*(?:[A-Za-z_.\[\]*]+\s*)?:=\s*(.*)$`)
 
 func clauseKeyword(s string) bool {
-	for _, k := range []string{"property ", "requires ", "ensures ", "modifies ", "no_panic", "may_panic", "panics_with ", "panics ", "decreases ", "loop#", "at ", "let ", "ghost ", "trusted", "inline", "noinline", "pure", "witness ", "assumes ", "dispatch ", "callback ", "reads_init "} {
+	for _, k := range []string{"property ", "requires ", "ensures ", "defines ", "modifies ", "no_panic", "may_panic", "panics_with ", "panics ", "decreases ", "loop#", "at ", "let ", "ghost ", "trusted", "inline", "noinline", "pure", "witness ", "assumes ", "dispatch ", "callback ", "reads_init "} {
 		if strings.HasPrefix(s, k) {
 			return true
 		}
@@ -320,6 +321,14 @@ func (cs *ContractSet) parseFile(pkgPath, file string) error {
 			}
 			c.Only = only
 			cur.Ensures = append(cur.Ensures, c)
+		case strings.HasPrefix(t, "defines "):
+			c, err := mk(strings.TrimSpace(t[8:]))
+			if err != nil {
+				return err
+			}
+			c.Defines = true
+			cur.Ensures = append(cur.Ensures, c)
+			cur.Assumes = append(cur.Assumes, "definitional postcondition (the spec functions in it are DEFINED as this function's results; relies on the function being a deterministic function of its arguments' content): "+strings.TrimSpace(t[8:]))
 		case strings.HasPrefix(t, "modifies "):
 			for _, part := range splitTop(t[9:]) {
 				c, err := mk(part)
